@@ -597,6 +597,17 @@ func (e *Engine) evalBinary(env *Env, n *EBinary) (TV, error) {
 		if err != nil {
 			return TV{}, err
 		}
+		// short circuit on a literally decided left operand (e.g. declared(x) && ..., declared(x) ==> ...):
+		// the right operand may mention locals that do not exist on this path
+		if a.S == "false" && n.Op == "&&" {
+			return TV{TFalse, boolT}, nil
+		}
+		if a.S == "false" && n.Op == "==>" {
+			return TV{TTrue, boolT}, nil
+		}
+		if a.S == "true" && n.Op == "||" {
+			return TV{TTrue, boolT}, nil
+		}
 		b, err := e.evalBool(env, n.Y)
 		if err != nil {
 			return TV{}, err
@@ -1001,6 +1012,18 @@ func (e *Engine) evalCall(env *Env, n *ECall) (TV, error) {
 			}
 		}
 		return TV{And(Eq(App("i-type", SInt, x), IntLit(int64(e.tm.TypeID(ty)))), Eq(Select(h, App("i-val", SInt, x)), v)), types.Typ[types.Bool]}, nil
+	case "declared":
+		// declared(x): the local variable x has been declared on this path (its cell exists)
+		id, ok := n.Args[0].(*EIdent)
+		if !ok || len(n.Args) != 1 {
+			return TV{}, fmt.Errorf("declared(x): x must be an identifier")
+		}
+		if env.fr != nil {
+			if _, _, ok := e.lookupLocal(env.fr, id.Name); ok {
+				return TV{TTrue, types.Typ[types.Bool]}, nil
+			}
+		}
+		return TV{TFalse, types.Typ[types.Bool]}, nil
 	case "isNilIface":
 		a, err := e.evalTerm(env, n.Args[0])
 		if err != nil {
